@@ -198,6 +198,25 @@ func scBadTip(w *world, rng *vh.Rng, orphan bool) *scenario {
 	return sc
 }
 
+// Blocks with many transactions: the thresholds of the write path (a DB transaction or bulk that is committed and
+// continued every N entries) only show with more than N entries. A block of n cheap transfers is connected on the
+// tip (reorg=false: after one small block) or is the first block of a new branch that wins (reorg=true); the model
+// predicts ONE unit for the tip transaction / for the tx-index transaction of the block, whatever n.
+func scBig(w *world, rng *vh.Rng, n int, reorg bool) *scenario {
+	sc := newScenario(w, fmt.Sprintf("big/n=%d,reorg=%v", n, reorg))
+	g := sc.blocks[1]
+	a1 := sc.child(g, sc.freshSpecs(g, rng, 1, 0))
+	if !reorg {
+		big := sc.child(a1, sc.freshSpecs(a1, rng, n, 8))
+		sc.order = []int{a1.id, big.id}
+		return sc
+	}
+	b1 := sc.child(g, sc.freshSpecs(g, rng, n, 9))
+	b2 := sc.child(b1, sc.freshSpecs(b1, rng, 1, 9))
+	sc.order = []int{a1.id, b1.id, b2.id}
+	return sc
+}
+
 func scenarios(w *world, run *vh.Run) []*scenario {
 	rng := run.Rng
 	var out []*scenario
@@ -221,6 +240,10 @@ func scenarios(w *world, run *vh.Run) []*scenario {
 		out = append(out, scBadReorg(w, rng, 0, 3, 2, txNone))
 		out = append(out, scBadTip(w, rng, true))
 		out = append(out, scBadTip(w, rng, false))
+		for _, n := range []int{999, 1000, 2500} {
+			out = append(out, scBig(w, rng, n, false))
+		}
+		out = append(out, scBig(w, rng, 1000, true))
 		out = append(out, scLinear(w, rng, 4, txMixed))
 		out = append(out, scOrphan(w, rng, 5, txNone))
 		for d := 1; d <= 4; d++ {
@@ -232,5 +255,8 @@ func scenarios(w *world, run *vh.Run) []*scenario {
 			out = append(out, scRandom(w, rng, i))
 		}
 	}
+	// last: the oracle looks every transaction the world knows up by hash on every judged node
+	out = append(out, scBig(w, rng, 1001, false))
+	out = append(out, scBig(w, rng, 1001, true))
 	return out
 }
